@@ -201,8 +201,13 @@ mod m {
     impl BatchCase {
         fn to_json(&self) -> Value {
             json!({"width": self.width, "records": self.records, "gates": self.gates, "first_record": self.first_record,
-                   "explicit_first": self.explicit_first, "seed": self.seed,
+                   "explicit_first": self.explicit_first, "push_order": self.push_order(), "seed": self.seed,
                    "flip": self.flip.map(|(h, g, rcd, a, b)| json!({"helper": h, "gate": g, "record": rcd, "array": ARRAYS[a], "bit": b}))})
+        }
+        /// order in which a helper pushes the records of one step (only a batch that knows its first record accepts
+        /// anything but increasing order)
+        fn push_order(&self) -> u64 {
+            if self.explicit_first { self.seed % 3 } else { 0 }
         }
         fn blocks_per_gate(&self) -> usize {
             let w = if self.width < 256 { self.width.next_power_of_two() } else { self.width };
@@ -237,7 +242,15 @@ mod m {
                     let mut batch = Batch::new(first, case.records);
                     for g in 0..case.gates {
                         let gate = Gate::default().narrow(&format!("mul-gate-{g}"));
-                        for rcd in 0..case.records {
+                        // with a known first record the store accepts the records of a step in any order, and the three
+                        // helpers need not agree on that order (0 = in order, 1 = reversed, 2 = seeded per helper and step)
+                        let mut order: Vec<usize> = (0..case.records).collect();
+                        match case.push_order() {
+                            1 => order.reverse(),
+                            2 => VRng::new(case.seed ^ 0x0d3, (h * 64 + g) as u64).shuffle(&mut order),
+                            _ => {}
+                        }
+                        for rcd in order {
                             let s = &data[g][rcd][h];
                             let seg = Segment::from_entries(
                                 SegmentEntry::from_bitslice(&s.a[0]),
@@ -285,6 +298,7 @@ mod m {
                 if all_ok {
                     rec.count("honest_batch_accepted");
                     rec.distinct(&("honest", case.width, case.records, case.gates, case.explicit_first, case.first_record > 0));
+                    rec.seen("batch_push_orders", ["in_order", "reversed", "shuffled_per_helper"][case.push_order() as usize]);
                     rec.seen("honest_shapes", format!("w{}/blocks{}/gates{}", case.width, blocks, case.gates));
                 } else {
                     rec.violation(
@@ -313,6 +327,29 @@ mod m {
                 }
             }
         }
+    }
+
+    /// The deepest proof the prover can build: one step of 49,153 x 256 = 12,583,168 multiplications needs the maximum number
+    /// of recursion levels (3 * 4^11 < m <= 3 * 4^12), the range production batches of TARGET_PROOF_SIZE = 50M fall into
+    /// (under cfg(test) batches are cut at 8192, so nothing else gets there). Thorough tier, one process, about a minute.
+    #[test]
+    fn verif_c03_deep_recursion_x1() {
+        let env = vlib::env();
+        let mut rec = Recorder::new("C03", "verif_c03_deep_recursion_x1");
+        if !env.thorough {
+            rec.eval();
+            rec.count("deep_recursion_skipped_in_quick_tier");
+            rec.finish();
+            return;
+        }
+        let honest = BatchCase { width: 256, records: 49_153, gates: 1, first_record: 0, explicit_first: true, flip: None, seed: env.seed ^ 0xdee9 };
+        judge_batch(&mut rec, &honest, 0);
+        rec.add("deep_recursion_multiplications", (honest.records * honest.width) as u64);
+        let mut flipped = honest.clone();
+        flipped.flip = Some((1, 0, 40_000, 6, 77));
+        judge_batch(&mut rec, &flipped, 1);
+        rec.sample(json!({"deep_batch": honest.to_json()}));
+        rec.finish();
     }
 
     const WIDTHS: [usize; 8] = [1, 3, 8, 20, 32, 64, 256, 512];
